@@ -92,12 +92,14 @@ def run(ctx: Ctx) -> None:
     ctx.log(f"binding A: {len(model_core & seen_paths)}/{len(model_core)} model paths realised on the real code; "
             f"{len(missed)} (path, api) tasks missed; {len(seen_paths - model_core)} real paths outside the model")
     if missed:
-        ctx.model_drift(f"model control paths not realisable on the real code: {missed[:4]} (of {len(missed)})")
+        ctx.notes.append(f"model control paths the search did not realise on the real code: {missed[:6]} (of {len(missed)})")
+    if not {"breakdown", "converged", "exhausted"} <= {p[2] for p in (model_core & seen_paths)}:
+        ctx.model_drift(f"exit kinds realised on the real code: {sorted({p[2] for p in (model_core & seen_paths)})}")
     if seen_paths - model_core:
         ctx.model_drift(f"real control paths that Krylov.tla does not have: {sorted(seen_paths - model_core)[:4]}")
 
     # (3a) stratified random exploration
-    n = ctx.pick(1600, 30000)
+    n = ctx.pick(1200, 24000)
     rng = np.random.default_rng([ctx.seed, 7])
     specs = [kc.gen_exp_spec(rng, ctx.seed * 1_000_003 + i) for i in range(n)]
     # cheap instances first / expensive ones spread: sort chunks round-robin by dimension
